@@ -169,6 +169,12 @@ def cases(ctx):
         else:
             cls, text = fedgen.dml(r)
             cls = 'dml:' + cls
+        if i % 12 == 7:
+            # a table whose name is made of digits only (what a version suffix looks like), with and without its integration
+            for t_ in ('int1.t1', 'int2.t2', 'int1.series'):
+                if t_ in text:
+                    text = text.replace(t_, r.choice(['`2024`', '`007`', '`1`', t_.split('.')[0] + '.`2024`', '`0`', '`2024`.`7`']))
+                    break
         kw, desc = fedgen.catalog(r, form=i % 6)
         yield i, cls, text, kw, desc
 
